@@ -384,32 +384,59 @@ func solveAll(p *Portfolio, jobs []*job, workers int) {
 		p.prunedMs *= 3
 		p.quickMs *= 3
 		p.slowMs *= 3
-		for _, j := range again {
-			first := j.o.Result
-			var tried []string
-			done := false
-			for pi, pq := range j.pruned {
-				ms := p.prunedMs
-				if pi == 0 && len(j.o.Using) > 0 {
-					ms = p.usingMs
-				}
-				pr := p.solvePrunedT(pq, ms, pi == 0 && len(j.o.Using) > 0)
-				tried = append(tried, fmt.Sprintf("retry-pruned:%s:%s:%.2fs", pr.Solver, pr.Status, pr.Seconds))
-				if pr.Status == "unsat" {
-					pr.Tried = append(first.Tried, tried...)
-					pr.Detail = "proved on retry (quiet machine, 3x budget) from a pruned subset of the hypotheses"
-					j.o.Result = &pr
-					done = true
-					break
-				}
+		saveSeed := p.seed
+		// the retry also varies the solver seed (a proof under any seed is a proof): the verdict of a
+		// check must not depend on which seed the caller happened to export
+		for attempt := 0; attempt < 3; attempt++ {
+			p.seed = saveSeed + attempt
+			if attempt > 0 {
+				// the other seeds at the normal budget
+				p.usingMs, p.prunedMs, p.quickMs, p.slowMs = saveU, saveP, saveQ, saveS
 			}
-			if done {
-				continue
+			var still []*job
+			for _, j := range again {
+				if attempt > 0 && (j.o.Result == nil || (j.o.Result.Status != "timeout" && j.o.Result.Status != "unknown")) {
+					continue
+				}
+				still = append(still, j)
 			}
-			r := p.solve(j.query, true)
-			r.Tried = append(append(first.Tried, tried...), r.Tried...)
-			j.o.Result = &r
+			// up to three retried obligations side by side (each races at most three solver processes)
+			var rwg sync.WaitGroup
+			sem := make(chan struct{}, 3)
+			for _, j := range still {
+				rwg.Add(1)
+				sem <- struct{}{}
+				go func(j *job) {
+					defer func() { <-sem; rwg.Done() }()
+					first := j.o.Result
+					var tried []string
+					done := false
+					for pi, pq := range j.pruned {
+						ms := p.prunedMs
+						if pi == 0 && len(j.o.Using) > 0 {
+							ms = p.usingMs
+						}
+						pr := p.solvePrunedT(pq, ms, pi == 0 && len(j.o.Using) > 0)
+						tried = append(tried, fmt.Sprintf("retry-pruned:%s:%s:%.2fs", pr.Solver, pr.Status, pr.Seconds))
+						if pr.Status == "unsat" {
+							pr.Tried = append(first.Tried, tried...)
+							pr.Detail = "proved on retry (quiet machine, 3x budget) from a pruned subset of the hypotheses"
+							j.o.Result = &pr
+							done = true
+							break
+						}
+					}
+					if done {
+						return
+					}
+					r := p.solve(j.query, true)
+					r.Tried = append(append(first.Tried, tried...), r.Tried...)
+					j.o.Result = &r
+				}(j)
+			}
+			rwg.Wait()
 		}
+		p.seed = saveSeed
 		p.usingMs, p.prunedMs, p.quickMs, p.slowMs = saveU, saveP, saveQ, saveS
 	}
 }
